@@ -33,6 +33,7 @@ UNITS = {
     'VALUESER': dict(template='valueser.rs', rlimit=30),
     'ACCSESS': dict(template='accsess.rs', rlimit=30),
     'SENDINNER': dict(template='sendinner.rs', rlimit=30),
+    'TXNDROP': dict(template='txndrop.rs', rlimit=30),
     'SESSWIRING': dict(template='sesswiring.rs', rlimit=30),
     'CONNWIRING': dict(template='connwiring.rs', rlimit=30),
     'ACCDELEG': dict(template='accdeleg.rs', rlimit=30),
@@ -237,12 +238,12 @@ PROPS = {
             'resumption: ReceiverInner::on_resuming_transfer is under contract in unit REASM (a resuming transfer for another delivery is not spliced with the buffered one); trimming the buffer to the sender\'s resume point (keep_buffer_till_section_number_and_offset) is an assumed contract (it only trims)',
             'interleaving with other links of the session is the routing contract of unit SESSION (C11.route.transfer)']),
     'C18': dict(
-        units=['TXN', 'TXNCTRL', 'TXNCOORD', 'SENDSPLIT', 'FRAMEENC', 'SESSWIRING', 'ACCSESS'], kani=[], level='proof', title='Transactions: listener-side resource table, controller-side wire content',
+        units=['TXN', 'TXNCTRL', 'TXNCOORD', 'SENDSPLIT', 'FRAMEENC', 'SESSWIRING', 'ACCSESS', 'TXNDROP'], kani=[], level='proof', title='Transactions: listener-side resource table, controller-side wire content',
         assumptions=[ASYNC,
             'the wrapped plain session is a stand-in with a ghost `delivered` log; built as with features transaction+acceptor',
             'allocate_transaction_id: partial correctness only (the uuid retry loop has no termination argument)',
             'commit_transaction that fails midway (inner session error) has already handed on a prefix of the posts: the contract only covers r is Ok',
-            'controller side (unit TXNCTRL): declare_on_link, discharge_on_link, send_on_control_link, Transaction::discharge, OwnedTransaction::discharge, post_inner, TransactionRetirement::retire, DeliveryState::{accepted_or_else, declared_or_else} are under contract with the control link / sender / receiver as ghost-trace stand-ins and the Mutex around the control link erased; post_ref_inner, acquisition and the rollback-on-drop path are not',
+            'controller side (unit TXNCTRL): declare_on_link, discharge_on_link, send_on_control_link, Transaction::discharge, OwnedTransaction::discharge, post_inner, TransactionRetirement::retire, DeliveryState::{accepted_or_else, declared_or_else} are under contract with the control link / sender / receiver as ghost-trace stand-ins and the Mutex around the control link erased; post_ref_inner and acquisition are not; the rollback-on-drop path is under contract in unit TXNDROP (rollback_on_drop, OwnedTransaction::drop; Transaction::drop uses `break` with a value and is not)',
             'the coordinator (unit TXNCOORD): on_declare, on_discharge, reject, handle_delivery_result under contract with the session requests and the receiver link as ghost-trace stand-ins', 'NOT DECIDED: the coordinator event loop (select!), abort of the remaining ids on Drop / when the controlling link goes away, several concurrent control links, freshness of a transaction id over the whole history (only among live ids)']),
     'C11': dict(
         units=['SESSION', 'FRAMEENC', 'CONN', 'SENDSPLIT', 'CONNENG', 'ACCSESS', 'LINKATTACH', 'LINK', 'WIRING', 'ACCLINK', 'ACCDELEG', 'TXNDELEG', 'LCONNDELEG', 'SESSWIRING', 'SESSENG', 'TXN', 'CONNWIRING'],
